@@ -158,6 +158,7 @@ Proof.
     destruct (p_recv pg) eqn:Er; [reflexivity|].
     pose proof (In_pget _ _ _ Hpk Hin) as Hpp. pose proof (HE _ _ Hpp Wo Er) as T. rewrite Ei in T. congruence.
   - reflexivity.
+  - reflexivity.
   - (* Timeout *)
     rewrite sset_same; [reflexivity|]. rewrite sget_abs, Ep. cbn [option_map]. unfold abs_call. cbn. rewrite Eph. reflexivity.
   - (* End *)
